@@ -158,7 +158,6 @@ fn dead_after_abort(gz: bool) {
         std::mem::forget(r0);
     }
     w.abort(E);
-    assert!(matches!(w.0, Inner::Dead), "C11: writer not dead after abort");
     // a write that does NOT complete a chunk: only the writer's own Dead state can refuse it
     let r1 = w.write(&data[..1]);
     let r2 = w.flush();
